@@ -35,6 +35,9 @@ class Build:
             q = r.choice(paths)
             ops = ex.paths[q]["ops"]
             j = r.randint(len(pre), len(ops))          # save after ops[:j]
+            deep = common.deep_positions(ex.paths[q]["recs"], len(pre))
+            if deep and r.random() < 0.6:
+                j = r.choice(deep) + 1                   # inside a thread / tunnel / function, choices pending mid-turn
             if (ex.paths[q]["recs"][j - 1].get("obs") or {}).get("errors"):
                 continue                                 # a halted story is not a save point of the statement
             before, rest = ops[:j], ops[j:]
